@@ -239,10 +239,21 @@ func (d *Decoder) readTypedList(tag byte) (interface{}, error) {
 		aryType = reflect.TypeOf([]interface{}{})
 	}
 
-	aryValue := reflect.MakeSlice(aryType, length, length)
+	if aryType.Kind() != reflect.Slice {
+		return nil, newCodecError("readTypedList", "list type %s is mapped to %v, which is not a slice type", listTyp, aryType)
+	}
+
+	// a fixed-length list is allocated as its elements arrive (in doubling steps): the declared
+	// length alone must not drive the allocation
+	aryValue := reflect.MakeSlice(aryType, minInt(length, _maxPreAlloc), minInt(length, _maxPreAlloc))
 	holder := d.addDecoderRef(aryValue)
 
 	for j := 0; j < length || isVariableArr; j++ {
+		if !isVariableArr && j >= aryValue.Len() {
+			more := minInt(length-j, aryValue.Len())
+			aryValue = reflect.AppendSlice(aryValue, reflect.MakeSlice(aryType, more, more))
+			holder.change(aryValue)
+		}
 		item, err := d.readData()
 		if err != nil {
 			if err == io.EOF && isVariableArr {
@@ -296,11 +307,17 @@ func (d *Decoder) readUntypedList(tag byte) (interface{}, error) {
 		return nil, nil
 	}
 
-	ary := make([]interface{}, length)
+	// see readTypedList: allocate as the elements arrive
+	ary := make([]interface{}, minInt(length, _maxPreAlloc))
 	aryValue := reflect.ValueOf(ary)
 	holder := d.addDecoderRef(aryValue)
 
 	for j := 0; j < length || isVariableArr; j++ {
+		if !isVariableArr && j >= len(ary) {
+			ary = append(ary, make([]interface{}, minInt(length-j, len(ary)))...)
+			aryValue = reflect.ValueOf(ary)
+			holder.change(aryValue)
+		}
 		it, err := d.readData()
 		if err != nil {
 			if err == io.EOF && isVariableArr {
